@@ -98,6 +98,10 @@ def step (s : St) (w : List String) : St × String :=
       | .panic => (s, "panic")
       | .hang => (s, "hang")
     | none => (s, "bad-op")
+  | ["window", t, tx] =>   -- VerifyTxBody's time rule (own window; box: every sub-tx no earlier than the box and inside the window)
+    match t.toNat?, tx? tx with
+    | some t, some tx => (s, toString (tx.validAt t))
+    | _, _ => (s, "bad-op")
   | ["dump"] => (s, s.g.dump)
   | ["verify", id] =>
     match id.toNat?.bind (blockOf s) with
